@@ -35,9 +35,10 @@ Definition uncovered (irr : list string) (fs : list ofield) : list string :=
 Definition equal_covers (irr : list string) (fs : list ofield) : bool :=
   match uncovered irr fs with [] => true | _ => false end.
 
-(* finding C: the five JSX fields Options.Equal omits at the pinned commit *)
-Definition known_gap_C : list string :=
-  ["jsx.Preserve"; "jsx.AutomaticRuntime"; "jsx.ImportSource"; "jsx.Development"; "jsx.SideEffects"].
+(* finding C (the five JSX fields Options.Equal used to omit) is fixed in
+   /repo: jsx.Preserve, AutomaticRuntime, ImportSource, Development and
+   SideEffects are compared; there is no known gap *)
+Definition known_gap_C : list string := [].
 
 (* --- the comparison as a function, for the memo-table theorems ---
    an options value assigns an (abstract) value to every field name *)
